@@ -95,6 +95,15 @@ def run_part(ck):
                                 "new_len": n, "cut": k, "of": total, "sees": cls} if len(ck.samples) < 3 and 0 < k < total else None)
     failed_writes(ck, lays)
     stale_object_cuts(ck, lays, var, jobs)
+    try:
+        cached_reader_cuts(ck, lays, var, jobs)
+    except Exception as e:  # noqa  nfcpy returned / raised something the oracle code did not foresee
+        from common import Infra
+        if isinstance(e, Infra):
+            raise
+        import traceback
+        ck.fail("t34-cached-reader-unexpected-behaviour", "exploring cached readers ended with %s: %s"
+                % (exc_name(e), traceback.format_exc().strip().split("\n")[-3:]), {"seed": ck.seed})
     T.compare(ck, model, jobs, "t34-cut-model-vs-nfcpy")
     emu_cuts(ck)
     try:
@@ -239,6 +248,71 @@ def stale_object_cuts(ck, lays, var, jobs):
                             "command %d of %d: fresh reader sees %s" % (len(lay.old), n, k, total, seen[:90]),
                             dict(replay0, cut_after=k, commands=total))
                 ck.case((lay.key(), "stale", lay.old, new, k), 0 < k < total, "%s:stale:%s" % (lay.kind, cls))
+
+
+def cached_reader_cuts(ck, lays, var, jobs):
+    """a READER that built its tag.ndef object BEFORE the write (Type 4: capability container, file id, NLEN size,
+    MLe cached in the object; Type 3: attribute values) looks again with `tag.ndef.has_changed` after another device's
+    write was cut at command k: it must see what a fresh reader of that memory sees - old / empty / not readable /
+    none / new - and has_changed must say whether the octets differ from the ones it held.  Tie: the cached reader's
+    view equals the model's view of that memory (theorem t4_cached_reader_is_fresh: in the model the cached reader IS the
+    fresh reader, the capability container does not change)."""
+    rng = ck.rng
+    n = 0
+    for lay in lays:
+        cap = lay.cap
+        if cap < 1:
+            continue
+        new = T.rbytes(rng, rng.choice([0, 1, min(cap, 17), rng.randrange(cap + 1), cap]), 1)
+        full = T.SetRun(lay.sim(), new)
+        if full.res != "ok":
+            continue
+        total = len(full.sim.writes)
+        small_mlc = lay.kind == "t4" and lay.mlc < lay.nl
+        for k in sorted(set([0, 1, total - 1, total] + pick(rng, total, 30 if ck.thorough else 6))):
+            if k < 0:
+                continue
+            w = lay.sim(cut=k)
+            T.SetRun(w, new)
+            image = bytes(w.mem) if lay.kind == "t3" else bytes(w.file)
+            fresh, _ = T.see(lay.sim(mem=image) if lay.kind == "t3" else lay.sim(file=image))
+            replay = {"layout": lay.descr(), "data": new.hex(), "cut_after": k, "commands": total,
+                      "reader": "tag.ndef created before the write; tag.ndef.has_changed after the cut"}
+            rs = lay.sim()
+            try:
+                tag = rs.activate()
+                nd = tag.ndef
+            except Exception:  # noqa  (judged by the cut exploration)
+                continue
+            if nd is None:
+                continue
+            held = bytes(nd.octets)
+            if lay.kind == "t3":
+                rs.mem[:] = image
+            else:
+                rs.file[:] = image
+            try:
+                changed = nd.has_changed
+                nd2 = tag.ndef
+                line = T.seen_line(nd2)
+            except Exception as e:  # noqa
+                ck.fail(lay.kind + "-cached-reader-raises", "has_changed after cut %d/%d raised %s" % (k, total, T.xname(e)), replay)
+                continue
+            n += 1
+            jobs.append((T.t3_req("see", image) if lay.kind == "t3" else T.t4_req("see", var, lay, image), line, replay))
+            cls = T.classify(line, lay.old, new)
+            ck.case((lay.key(), "cached-reader", lay.old, new, k), 0 < k < total, "%s:cached-reader:%s" % (lay.kind, cls))
+            if cls == "corrupt":
+                ck.fail("t4-torn-nlen-mlc-below-nlen-size" if small_mlc else lay.kind + "-cached-reader-cut-corrupt",
+                        "old %d octets, new %d octets, cut after command %d of %d: the reader that cached the tag's management "
+                        "data before the write sees %s" % (len(lay.old), len(new), k, total, line[:90]), replay)
+            elif line != fresh:
+                ck.fail(lay.kind + "-cached-reader-differs-from-fresh", "cut after command %d of %d: cached reader sees %s, a fresh "
+                        "reader %s" % (k, total, line[:90], fresh[:90]), replay)
+            elif changed != (nd2 is None or bytes(nd2.octets) != held):
+                ck.fail(lay.kind + "-has-changed-wrong", "cut after command %d of %d: has_changed = %s, held %d octets, now %s"
+                        % (k, total, changed, len(held), line[:60]), replay)
+    ck.notes.append("t34: %d looks through tag.ndef objects created before the cut write (has_changed)" % n)
 
 
 def emu_cuts(ck):
